@@ -158,9 +158,9 @@ def run(tier, seed):
                 "sample in quick); operands include values produced by arithmetic. distinct_nontrivial = distinct (operation, operand "
                 "representation classes) combinations judged against the model; the order axioms are checked on the observed pair relation" % n)
     ctx.assumptions = ["mixed exact/inexact comparison converts the exact operand to binary32 (ratios with components >= 2^24 are not judged)"]
-    pairs = list(itertools.product(range(n), repeat=2))
+    pairs = list(itertools.product(range(n), repeat=2)) if core.PART_I == 0 else []
     if tier == "thorough":
-        triples = list(itertools.product(range(n), repeat=3))
+        triples = core.mine(itertools.product(range(n), repeat=3))
         ctx.exhaustive = True
     else:
         triples = [tuple(ctx.rng.randrange(n) for _ in range(3)) for _ in range(40000)]
